@@ -78,6 +78,7 @@ func cmdCheck(args []string) int {
 	workers := fs.Int("workers", 16, "")
 	keep := fs.Bool("keep", false, "keep going after first violation")
 	stats := fs.Bool("stats", false, "print per-job statistics")
+	debug := fs.Bool("debug", false, "print raw findings and path ends")
 	fs.Parse(args[1:])
 	if *tier == "" {
 		*tier = os.Getenv("VERIF_TIER")
@@ -126,6 +127,14 @@ func cmdCheck(args []string) int {
 		for i, j := range js {
 			if i < 25 {
 				fmt.Printf("STAT paths=%d wall=%.1fs %s\n", j.paths, j.wall.Seconds(), j.describe())
+			}
+		}
+	}
+	if *debug {
+		for _, j := range jobs {
+			fmt.Printf("DEBUG job %s ends=%v\n", j.describe(), j.ends)
+			for _, f := range j.allFindings() {
+				fmt.Printf("DEBUG   finding %s at %s tape=%v abstract=%v\n", f.Key, f.Where, f.Tape, f.Abstract)
 			}
 		}
 	}
